@@ -239,6 +239,55 @@ def imported_grammar_scenario():
         shutil.rmtree(tmp, ignore_errors=True)
 
 
+def reload_after_failing_processor(global_repo):
+    """a processor fails during one load; the next load of the same file (and of another file importing the
+    same library) delivers models in which every object was processed exactly once"""
+    import os
+    import shutil
+    import tempfile
+    from textx import metamodel_from_str, get_children
+    import textx.scoping.providers as P
+    tmp = tempfile.mkdtemp(prefix='c13r_')
+    problems = []
+    try:
+        files = {'lib.m': 'leaf l1; box lb { leaf l2 -> l1; }', 'main': 'import "lib.m" leaf m1 -> l2; box mb { leaf m2; }',
+                 'other': 'import "lib.m" leaf o1 -> l1;'}
+        for fn, t in files.items():
+            with open(os.path.join(tmp, fn), 'w') as f:
+                f.write(t)
+        mm = metamodel_from_str(LC.GRAMMAR, global_repository=global_repo)
+        mm.register_scope_providers({'*.*': P.PlainNameImportURI()})
+        state = {'fail_on': 'm2', 'count': {}}
+
+        def proc(o):
+            if o.name == state['fail_on']:
+                raise ValueError('processor rejects %s' % o.name)
+            state['count'][id(o)] = state['count'].get(id(o), 0) + 1
+        mm.register_obj_processors({'Leaf': proc, 'Box': proc})
+        try:
+            mm.model_from_file(os.path.join(tmp, 'main'))
+            return ['harness: the load with a failing processor succeeds']
+        except ValueError:
+            pass
+        state['fail_on'] = None
+        for fn in ('main', 'other'):
+            m = mm.model_from_file(os.path.join(tmp, fn))
+            models = [m] + list(m._tx_model_repository.all_models)
+            seen = set()
+            for mod in models:
+                for o in get_children(lambda x: type(x).__name__ in ('Leaf', 'Box'), mod):
+                    if id(o) in seen:
+                        continue
+                    seen.add(id(o))
+                    n = state['count'].get(id(o), 0)
+                    if n != 1:
+                        problems.append('after a load that failed in a processor (global repository %s): %s %r of the '
+                                        'model delivered for %s was processed %d times' % (global_repo, type(o).__name__, o.name, fn, n))
+        return problems[:3]
+    finally:
+        shutil.rmtree(tmp, ignore_errors=True)
+
+
 def abstract_with_match_alternative():
     """an abstract rule with match-rule alternatives (Value: INT | STRING | Obj) typing a list: the processor
     of the abstract rule runs once per element (objects and primitive values alike), after the element's own"""
@@ -316,6 +365,13 @@ def main():
     for pr in abstract_with_match_alternative():
         chk.cov['traces_validated_against_impl'] += 1
         chk.violation(pr, {'abstract_match_alt': True})
+    for gr in (False, True):
+        for pr in reload_after_failing_processor(gr):
+            chk.cov['traces_validated_against_impl'] += 1
+            if pr.startswith('harness'):
+                chk.harness_error(pr)
+            else:
+                chk.violation(pr, {'reload_after_failure': gr})
     chk.cov['bounds']['imported_grammar'] = 'one grammar in three files with a transitive import, processors on every rule (concrete)'
     chk.cov['bounds']['processor_subsets'] = 'every subset of %s x 2 attribute orders on one recursive model' % PS_RULES
     chk.cov['paths_explored'] = paths
@@ -326,6 +382,9 @@ def main():
 
 
 def replay(data):
+    if 'reload_after_failure' in data:
+        pr = reload_after_failing_processor(data['reload_after_failure'])
+        return bool(pr), pr
     if data.get('abstract_match_alt'):
         pr = abstract_with_match_alternative()
         return bool(pr), pr
